@@ -498,3 +498,66 @@ Proof.
     replace (- 0 + r) with r in T3 by ring. replace (- r + r) with 0 in T3, T4 by ring. replace (0 + (h - r)) with (h - r) in T4 by ring.
     repeat split; rewrite !in_app_iff; tauto.
 Qed.
+
+(* ---------------- C07: the star is wound clockwise ---------------- *)
+(* point j of the star: radius alternates inner, outer; angle advances by -180/n per point *)
+Definition star_pt (n inner outer : R) (j : Z) : P2 :=
+  let a := - 180 / n * IZR j in let r := if Z.even j then inner else outer in Pt2 (dcos a * r) (dsin a * r).
+Lemma star_as_map (n : Z) (inner outer : R) : (1 <= n)%Z ->
+  star n inner outer = map (star_pt (IZR n) inner outer) (map Z.of_nat (seq 0 (2 * Z.to_nat n))).
+Proof.
+  intros Hn. unfold star, zseq. cbn [nneg ndiv nmul nadd nofZ NumR]. unfold nlit. cbn [ndiv nofZ NumR].
+  set (N := IZR n). assert (HN : N <> 0) by (unfold N; apply not_0_IZR; lia).
+  assert (G : forall k s, flat_map (fun i : Z => [Pt2 (dcos (- 360 / N * IZR i) * inner) (dsin (- 360 / N * IZR i) * inner);
+                                                  Pt2 (dcos (- 360 / N * (IZR i + 1 / 2)) * outer) (dsin (- 360 / N * (IZR i + 1 / 2)) * outer)])
+                                  (map Z.of_nat (seq s k))
+                        = map (star_pt N inner outer) (map Z.of_nat (flat_map (fun i => [2 * i; 2 * i + 1]%nat) (seq s k)))).
+  { induction k as [|k IH]; intros s; [reflexivity|]. cbn [seq map flat_map app]. rewrite IH. f_equal; [|f_equal].
+    - unfold star_pt. replace (Z.even (Z.of_nat (2 * s))) with true by (symmetry; rewrite Nat2Z.inj_mul; apply Z.even_mul). cbv zeta.
+      replace (- 180 / N * IZR (Z.of_nat (2 * s))) with (- 360 / N * IZR (Z.of_nat s)) by (rewrite Nat2Z.inj_mul, mult_IZR; cbn [Z.of_nat]; field; exact HN). reflexivity.
+    - unfold star_pt. replace (Z.even (Z.of_nat (2 * s + 1))) with false by (symmetry; rewrite Nat2Z.inj_add, Nat2Z.inj_mul; cbn [Z.of_nat]; rewrite Z.even_add, Z.even_mul; reflexivity). cbv zeta.
+      replace (- 180 / N * IZR (Z.of_nat (2 * s + 1))) with (- 360 / N * (IZR (Z.of_nat s) + 1 / 2)) by (rewrite Nat2Z.inj_add, Nat2Z.inj_mul, plus_IZR, mult_IZR; cbn [Z.of_nat]; field; exact HN). reflexivity. }
+  rewrite G. f_equal. f_equal. clear. generalize (Z.to_nat n). intros k.
+  assert (forall s, flat_map (fun i => [2 * i; 2 * i + 1]%nat) (seq s k) = seq (2 * s) (2 * k)).
+  { induction k as [|k IH]; intros s; [reflexivity|]. cbn [seq flat_map app]. rewrite IH. replace (2 * S k)%nat with (S (S (2 * k))) by lia. cbn [seq].
+    replace (2 * s + 1)%nat with (S (2 * s)) by lia. replace (2 * S s)%nat with (S (S (2 * s))) by lia. reflexivity. }
+  rewrite H. reflexivity.
+Qed.
+
+Theorem star_area (n : Z) (inner outer : R) : (1 <= n)%Z ->
+  area2 (star n inner outer) = - (2 * IZR n * (inner * outer) * dsin (180 / IZR n)).
+Proof.
+  intros Hn. rewrite star_as_map by exact Hn. set (N := IZR n). assert (HN : 1 <= N) by (unfold N; apply IZR_le; exact Hn).
+  set (f := star_pt N inner outer). set (c := - (inner * outer * dsin (180 / N))).
+  assert (Hstep : forall i, cross2 (f i) (f (i + 1)%Z) = c).
+  { intros i. unfold f, star_pt. cbv zeta. rewrite Z.even_add. change (Z.even 1) with false.
+    set (a := - 180 / N * IZR i). replace (- 180 / N * IZR (i + 1)) with (a + - (180 / N)) by (unfold a; rewrite plus_IZR; field; lra).
+    rewrite dsin_plus, dcos_plus, dsin_neg, dcos_neg. pose proof (dsin2_dcos2 a) as Ha. unfold c.
+    destruct (Z.even i); cbn [Bool.eqb]; dred; revert Ha; generalize (dcos a) (dsin a) (dcos (180 / N)) (dsin (180 / N)); intros ca sa cn sn Ha; nsatz. }
+  destruct (Z.to_nat n) as [|k] eqn:Ek; [lia|]. replace (2 * S k)%nat with (S (S (2 * k))) by lia.
+  change (map f (map Z.of_nat (seq 0 (S (S (2 * k)))))) with (f 0%Z :: map f (map Z.of_nat (seq 1 (S (2 * k))))).
+  cbv beta iota delta [area2]. change (f 0%Z :: map f (map Z.of_nat (seq 1 (S (2 * k))))) with (map f (map Z.of_nat (seq 0 (S (S (2 * k)))))).
+  rewrite (open_area2_const f c Hstep (S (2 * k)) 0%nat).
+  assert (Hlast : last (map f (map Z.of_nat (seq 0 (S (S (2 * k)))))) (f 0%Z) = f (Z.of_nat (S (2 * k)))) by (rewrite seq_S, !map_app; cbn [map Nat.add]; apply last_app_one).
+  rewrite Hlast.
+  assert (Hclose : cross2 (f (Z.of_nat (S (2 * k)))) (f 0%Z) = c).
+  { unfold f, star_pt. cbv zeta. change (Z.even 0) with true.
+    replace (Z.even (Z.of_nat (S (2 * k)))) with false by (symmetry; rewrite Nat2Z.inj_succ, Nat2Z.inj_mul, Z.even_succ, Z.odd_mul; reflexivity).
+    replace (- 180 / N * IZR 0) with 0 by (simpl; field; lra). rewrite dcos_0, dsin_0.
+    assert (HkN : IZR (Z.of_nat (S (2 * k))) = 2 * N - 1).
+    { unfold N. replace n with (Z.of_nat (S k)) by lia. rewrite !Nat2Z.inj_succ, Nat2Z.inj_mul, !succ_IZR, mult_IZR. cbn [Z.of_nat]. ring. }
+    rewrite HkN. replace (- 180 / N * (2 * N - 1)) with (- (360 - 180 / N)) by (field; lra).
+    rewrite dsin_neg, dcos_neg, dsin_360_minus. unfold c. dred. ring. }
+  change (nadd (INR (S (2 * k)) * c) (cross2 (f (Z.of_nat (S (2 * k)))) (f 0%Z))) with (INR (S (2 * k)) * c + cross2 (f (Z.of_nat (S (2 * k)))) (f 0%Z)).
+  rewrite Hclose.
+  assert (HINR : INR (S (2 * k)) = 2 * N - 1).
+  { unfold N. replace n with (Z.of_nat (S k)) by lia. rewrite INR_IZR_INZ, !Nat2Z.inj_succ, Nat2Z.inj_mul, !succ_IZR, mult_IZR. cbn [Z.of_nat]. ring. }
+  rewrite HINR. unfold c. ring.
+Qed.
+Theorem star_clockwise (n : Z) (inner outer : R) : (2 <= n)%Z -> 0 < inner -> 0 < outer -> area2 (star n inner outer) < 0.
+Proof.
+  intros Hn Hi Ho. rewrite star_area by lia. assert (HN : 2 <= IZR n) by (apply IZR_le; exact Hn).
+  assert (Hd : 0 < dsin (180 / IZR n)).
+  { apply dsin_pos. split; [apply Rdiv_lt_0_compat; lra|]. apply (Rmult_lt_reg_r (IZR n)); [lra|]. unfold Rdiv. rewrite Rmult_assoc, Rinv_l by lra. lra. }
+  assert (0 < inner * outer) by nra. assert (0 < IZR n * (inner * outer)) by nra. nra.
+Qed.
